@@ -690,7 +690,7 @@ func TestVerifC10(t *testing.T) {
 		// mutations at every byte position
 		stride := 1
 		if !small {
-			stride = vfScale(37, 5)
+			stride = vfScale(61, 5)
 		}
 		startOff := r.Intn(stride)
 		for pos := startOff; pos < len(s.strm); pos += stride {
@@ -787,6 +787,8 @@ func TestVerifC10(t *testing.T) {
 	c10StoreToStore(t, c)
 	c10Transport(t, c, shapes)
 	c10EmptyWriteAfterDone(t, c, shapes[0])
+	c10CrashStates(t, c, shapes)
+	c10IncrementalInstall(t, c, shapes)
 	rep.vfCompareSegments("snapstream", c.segOps, c.segImpl)
 }
 
@@ -1069,5 +1071,147 @@ func c10Transport(t *testing.T, c *c10Ctx, shapes []*c10Shape) {
 				c.one(s, got, "transport:"+m.name, 0, 3, false)
 			}
 		}
+	}
+}
+
+// c10CrashStates: the directory states a crash can leave during Sink.Close, built by hand
+// (k = number of completed steps: 0 data only in <id>.tmp, 1 + sidecars, 2 + meta.json, 3 synced,
+// 4.. renamed into place), then a real store start (Store.check) and what it lists.
+func c10CrashStates(t *testing.T, c *c10Ctx, shapes []*c10Shape) {
+	done := 0
+	for _, s := range shapes {
+		if !s.real || (done >= 1 && !vfThorough()) {
+			continue
+		}
+		done++
+		for k := 0; k <= 6; k++ {
+			root, _ := os.MkdirTemp(c.root, "crash")
+			id := "2-77-1700000000077"
+			dir := filepath.Join(root, id)
+			if k < 4 {
+				dir = tmpName(dir)
+			}
+			os.MkdirAll(dir, 0o755)
+			files := map[string][]byte{"data.db": s.db}
+			for i, w := range s.wals {
+				files[fmt.Sprintf("data-%08d.wal", i)] = w
+			}
+			for name, b := range files {
+				os.WriteFile(filepath.Join(dir, name), b, 0o644)
+				if k >= 1 {
+					sidecar.WriteFile(filepath.Join(dir, name)+crcSuffix, c10CRC(b))
+				}
+			}
+			if k >= 2 {
+				writeMeta(dir, &raft.SnapshotMeta{ID: id, Index: 77, Term: 2})
+			}
+			st, err := NewStore(root)
+			tok := "none"
+			info := map[string]interface{}{"shape": s.name, "steps_completed": k}
+			if err != nil {
+				tok = "store-does-not-start:" + err.Error()
+			} else {
+				st.fatalFn = nil
+				metas, lerr := st.List()
+				switch {
+				case lerr != nil:
+					tok = "list-fails:" + lerr.Error()
+				case len(metas) == 0:
+					if _, serr := os.Stat(tmpName(filepath.Join(root, id))); serr == nil {
+						tok = "tmp-directory-left-behind"
+					}
+				default:
+					_, rc, oerr := st.Open(metas[0].ID)
+					if oerr != nil {
+						tok = "partial:" + oerr.Error()
+					} else {
+						out := filepath.Join(root, "r.db")
+						_, rerr := Restore(rc, out)
+						rc.Close()
+						got, _ := os.ReadFile(out)
+						want := s.db
+						if len(s.wals) > 0 {
+							want = s.replayed
+						}
+						if rerr != nil || !bytes.Equal(got, want) {
+							tok = fmt.Sprintf("partial:restore err=%v", rerr)
+						} else {
+							tok = "complete"
+						}
+					}
+				}
+				st.Close()
+			}
+			c.segOps = append(c.segOps, []string{fmt.Sprintf("crash %d", k)})
+			c.segImpl = append(c.segImpl, []string{tok})
+			c.rep.Count("crash-states")
+			c.rep.Case(fmt.Sprintf("crash|%s|%d", s.name, k), true)
+			if tok != "none" && tok != "complete" {
+				c.rep.Fail("crash-during-close-leaves-partial-snapshot", fmt.Sprintf("shape %s, %d steps of Sink.Close completed: %s", s.name, k, tok), info)
+			}
+			os.RemoveAll(root)
+		}
+	}
+}
+
+// c10IncrementalInstall: the incremental-file path end to end on the real Sink: a local WAL
+// directory (WAL files + sidecars), the header-only stream, Close; the WAL files must end up in
+// the snapshot directory byte for byte, with sidecars and meta.json, and the source directory is
+// consumed. Data after the header must be refused (already covered by the stream mutations).
+func c10IncrementalInstall(t *testing.T, c *c10Ctx, shapes []*c10Shape) {
+	for _, s := range shapes {
+		if !s.real || len(s.wals) == 0 {
+			continue
+		}
+		root, _ := os.MkdirTemp(c.root, "inc-store")
+		walDir := filepath.Join(c.root, fmt.Sprintf("inc-wal-dir-%d", c10Seq))
+		c10Seq++
+		os.MkdirAll(walDir, 0o755)
+		for i, w := range s.wals {
+			p := filepath.Join(walDir, fmt.Sprintf("%020d.wal", i+1))
+			os.WriteFile(p, w, 0o644)
+			sidecar.WriteFile(p+crcSuffix, c10CRC(w))
+		}
+		hdr, _ := NewIncrementalFileSnapshotHeader(walDir)
+		hb, _ := marshalSnapshotHeader(hdr)
+		id := "2-88-1700000000088"
+		sink := NewSink(root, &raft.SnapshotMeta{ID: id, Index: 88, Term: 2}, nil, nil)
+		sink.fatalFn = nil
+		sink.Open()
+		info := map[string]interface{}{"shape": s.name, "wals": len(s.wals)}
+		c.rep.Count("incremental-file-installs")
+		c.rep.Case("inc|"+s.name, true)
+		if _, err := sink.Write(c10Frame(hb)); err != nil {
+			c.rep.Fail("incremental-install-fails", err.Error(), info)
+			continue
+		}
+		if err := sink.Close(); err != nil {
+			c.rep.Fail("incremental-install-fails", err.Error(), info)
+			continue
+		}
+		ok := true
+		for i, w := range s.wals {
+			p := filepath.Join(root, id, fmt.Sprintf("%020d.wal", i+1))
+			got, err := os.ReadFile(p)
+			if err != nil || !bytes.Equal(got, w) {
+				ok = false
+			}
+			if eq, err := sidecar.CompareFile(p, p+crcSuffix); err != nil || !eq {
+				ok = false
+			}
+		}
+		if _, err := os.Stat(metaPath(filepath.Join(root, id))); err != nil {
+			ok = false
+		}
+		if _, err := os.Stat(walDir); err == nil {
+			ok = false // the source directory must have been consumed
+		}
+		if _, err := os.Stat(tmpName(filepath.Join(root, id))); err == nil {
+			ok = false
+		}
+		if !ok {
+			c.rep.Fail("incremental-install-not-exact", fmt.Sprintf("shape %s: installed WAL files / sidecars / meta.json / consumed source do not match", s.name), info)
+		}
+		os.RemoveAll(root)
 	}
 }
